@@ -1,5 +1,6 @@
 """Workspaces: temporary packages of generated Python code, recording stores, value encoders."""
 import importlib
+import linecache
 import itertools
 import os
 import shutil
@@ -43,6 +44,17 @@ class Workspace(object):
         self.pkgs.append(parts[0])
         return mod
 
+    def rewrite_module(self, name, source):
+        """edit a module in place: rewrite the file, drop source caches, reload"""
+        import linecache
+        parts = name.split(".")
+        path = os.path.join(self.dir, *parts) + ".py"
+        with open(path, "w") as f:
+            f.write(source)
+        linecache.clearcache()
+        importlib.invalidate_caches()
+        return importlib.reload(sys.modules[name])
+
     def close(self):
         try:
             sys.path.remove(self.dir)
@@ -57,6 +69,7 @@ class Workspace(object):
                 _accepted_packages.discard(p)
         except Exception:
             pass
+        linecache.clearcache()
         shutil.rmtree(self.dir, ignore_errors=True)
 
     def __enter__(self):
